@@ -195,6 +195,11 @@ func VerifC09_IllTyped() {
 		mat[k] = mat[k][:k]
 	case 5: // nil alphabet
 		rs.alpha = nil
+	case 6: // ragged matrix: one row (which one is symbolic) longer than the alphabet
+		row := verifChoice("longrow", k+1)
+		mat[row] = append(append([]int(nil), mat[row]...), verifInt("extra", -2, 2))
+	case 7: // non-square matrix: one row too many
+		mat = append(mat, append([]int(nil), mat[0]...))
 	}
 	aln, err, panicked := verifAlign(verifAligner(which, mat, open), rs, qs)
 	verifAssert(!panicked, "no-panic")
